@@ -89,6 +89,12 @@ bt = {}
 bt["d2Strict"] = cmp_shape(B, r"if delta2", r"self\.cyclic_size", "<", "<=", 1, "hash2 candidate range")
 bt["d3Strict"] = cmp_shape(B, r"&& delta3", r"self\.cyclic_size", "<", "<=", 1, "hash3 candidate range")
 bt["treeStopGe"] = cmp_shape(B, r"if depth == 0 \|\| delta", r"self\.cyclic_size", ">=", ">", 2, "tree loop exit")
+bt["pairSelGt"] = cmp_shape(B, r"\(\(delta", r"self\.cyclic_pos\) as i32\)", ">", ">=", 2, "pair selector")
+bt["niceStopGe"] = cmp_shape(B, r"if len(?:_best)?", r"nice_len_limit \{", ">=", ">", 2, "nice length stop")
+bt["bestStrict"] = cmp_shape(B, r"if len", r"len_best \{", ">", ">=", 1, "better match test")
+bt["shLeft"] = grab(B, r"fn sh_left\(i: i32\) -> i32 \{ \(\(i as u32\) << ([0-9]+)\) as i32 \}", 1, num, "sh_left")
+bt["h2Len"] = grab(B, r"len_best = ([0-9]+); matches\.len\[0\] = \1; matches\.dist\[0\] = delta2 - 1; matches\.count = 1;", 1, num, "hash2 candidate length")
+bt["h3Len"] = grab(B, r"len_best = ([0-9]+); let count = matches\.count as usize; matches\.dist\[count\] = delta3 - 1; matches\.count \+= 1; delta2 = delta3;", 1, num, "hash3 candidate length")
 bt["cyclicExtra"] = grab(B, r"let cyclic_size = dict_size as i32 \+ ([0-9]+);", 1, num, "cyclic_size")
 bt["treeFactor"] = grab(B, r"let tree = (?:AlignedMemoryI32::new\(|vec!\[0; )cyclic_size as usize \* ([0-9]+)", 2, num, "tree length")
 grab(B, r"cyclic_pos: -1, lz_pos: cyclic_size,", 1, None, "initial cyclic_pos / lz_pos")
@@ -113,7 +119,7 @@ def inst(d, zero_bools=()):
     for k, v in d.items():
         lv = lean_val(v)
         if lv is None:
-            lv = "false" if k.endswith("Strict") or k.endswith("Ge") else "0"
+            lv = "false" if k.endswith("Strict") or k.endswith("Ge") or k.endswith("Gt") else "0"
         parts.append(f"{k} := {lv}")
     return ", ".join(parts)
 
